@@ -450,6 +450,21 @@ func (sm *Sim) Apply(tok string) (out string) {
 			h = IPTok(fr.Host.Addr.IP)
 		}
 		return "f:" + h + "/" + b01(frameFlags(fr)&1 == 1)
+	case "B":
+		// a received frame as raw bytes: the MODEL computes the summary (Model/TablesGlue.v over Model/Parse.v);
+		// the harness's own mini-decoder only feeds statistics
+		sm.vnow = atoi(f[2])
+		frame := lib.UnHex(f[1])
+		sm.Scribble()
+		n := copy(sm.buf[:], frame)
+		fr, _ := sm.S.Parse(sm.buf[:n])
+		sm.last, sm.haveLast = fr, true
+		sm.settle()
+		h := "nil"
+		if fr.Host != nil {
+			h = IPTok(fr.Host.Addr.IP)
+		}
+		return "f:" + h + "/" + b01(frameFlags(fr)&1 == 1)
 	case "N":
 		if !sm.haveLast {
 			return "stale"
@@ -733,6 +748,25 @@ func Candidates(cfg Cfg, ops []string) (ips []netip.Addr, macs []net.HardwareAdd
 			}
 			addI(ParseIP(f[3]))
 			addM(ParseMac(f[4]))
+		case "B":
+			// candidates only say WHICH addresses the views are asked for: take every position an address can
+			// be read from (IPv4 source, ARP sender, IPv6 source), whether or not the frame is valid
+			b := lib.UnHex(f[1])
+			if len(b) >= 12 {
+				addM(net.HardwareAddr(append([]byte{}, b[6:12]...)))
+			}
+			if len(b) >= 28 {
+				addM(net.HardwareAddr(append([]byte{}, b[22:28]...)))
+			}
+			if len(b) >= 30 {
+				addI(netip.AddrFrom4(*(*[4]byte)(b[26:30])))
+			}
+			if len(b) >= 32 {
+				addI(netip.AddrFrom4(*(*[4]byte)(b[28:32])))
+			}
+			if len(b) >= 38 {
+				addI(netip.AddrFrom16(*(*[16]byte)(b[22:38])))
+			}
 		case "U", "O":
 			addM(ParseMac(f[1]))
 			addI(ParseIP(f[2]))
@@ -1200,4 +1234,67 @@ func indexOf(l []netip.Addr, a netip.Addr) int {
 		}
 	}
 	return 0
+}
+
+
+// RawOps rewrites every "R,..." op (frame recipe + summary) of a history into a "B,<hex>,<now>" op that carries
+// the frame BYTES only. With probability `damage` percent the frame is damaged first: truncated at a random
+// offset, a random byte changed, a length field changed, trailing bytes appended, a VLAN tag type written, or
+// replaced by random bytes. Damaged frames must be no-ops on the tables unless Parse accepts them.
+func RawOps(ops []string, rng *lib.Rand, damage int, stat func(string)) []string {
+	out := make([]string, len(ops))
+	for i, op := range ops {
+		if !strings.HasPrefix(op, "R,") {
+			out[i] = op
+			continue
+		}
+		f := strings.Split(op, ",")
+		v, _ := strconv.Atoi(f[7])
+		src := f[1]
+		if f[2] == "x" && v == 0 {
+			src = "020000000000"
+		}
+		frame := BuildFrame(ParseMac(src), f[2], ParseIP(f[3]), ParseMac(f[4]), v)
+		if rng.Chance(damage) && len(frame) > 0 {
+			switch rng.Intn(7) {
+			case 0:
+				frame = frame[:rng.Intn(len(frame))]
+				stat("damage.truncate")
+			case 1:
+				frame = append([]byte{}, frame...)
+				frame[rng.Intn(len(frame))] = rng.Byte()
+				stat("damage.byte")
+			case 2: // a length field: IPv4 total length / IHL, IPv6 payload length, ARP hlen
+				frame = append([]byte{}, frame...)
+				if len(frame) > 20 {
+					frame[14+rng.Pick(0, 2, 3, 4, 5)] = byte(rng.Pick(0, 1, 4, 5, 6, 0x45, 0x4f, 0x46, 255))
+				}
+				stat("damage.length-field")
+			case 3:
+				frame = append(append([]byte{}, frame...), rng.Bytes(1+rng.Intn(8))...)
+				stat("damage.trailing")
+			case 4: // 802.1Q / 802.1ad type in front of whatever follows
+				frame = append([]byte{}, frame...)
+				if len(frame) >= 14 {
+					frame[12], frame[13] = 0x81, 0x00
+					if rng.Bool() {
+						frame[12], frame[13] = 0x88, 0xa8
+					}
+					frame = frame[:14+rng.Intn(len(frame)-13)]
+				}
+				stat("damage.vlan")
+			case 5:
+				frame = rng.Bytes(rng.Intn(64))
+				stat("damage.random")
+			case 6: // truncate inside layer 4: the host is created, then Parse returns an error
+				if len(frame) > 38 {
+					frame = frame[:34+rng.Intn(len(frame)-34)]
+				}
+				stat("damage.l4")
+			}
+		}
+		stat("minidecoder.class." + Decode(frame).Class)
+		out[i] = "B," + lib.Hex(frame) + "," + f[6]
+	}
+	return out
 }
